@@ -277,7 +277,18 @@ def run(ctx, rep):
            "loop condition reads self.closed" if okl else "serve_all keeps serving a closed connection", fa.loc, kind="site")
 
     # ------------------------------------------------------------------ R11.4 stream failure/close discipline (= R05.3)
-    K.share(ctx, rep, "c05", lambda o: o.rule == "R05.3", "R11.4", floor=10)
+    K.share(ctx, rep, "c05", lambda o: o.rule in ("R05.3", "R05.6"), "R11.4", floor=10)
+    # Connection.closed is the flag itself: reporting closed for any other reason (a dead transport) before close() has run makes
+    # callers skip close() - the disconnect hook never runs and the tables are never released
+    fcp = ctx.cls(K.CONN).methods.get("closed")
+    okcp = False
+    if fcp is not None:
+        rets_ = [n for n in A.walk(fcp.node) if isinstance(n, ast.Return)]
+        okcp = len(rets_) == 1 and K.self_attr(rets_[0].value, "_closed") is not None
+    rep.ob("R11.1", "Connection.closed reports exactly the closed flag", okcp, "return self._closed" if okcp else
+           "Connection.closed is computed from more than the flag (`%s`): the connection can report closed although close()/_cleanup "
+           "never ran" % (A.src(rets_[0].value) if fcp is not None and rets_ else "?"), fcp.loc if fcp is not None else "rpyc/core/protocol.py",
+           kind="site")
     # ------------------------------------------------------------------ R11.4 channel delegation
     fcl = ctx.func("rpyc.core.channel.Channel.close")
     okc = bool(A.find_calls(fcl.node, "self.stream.close"))
